@@ -3,7 +3,8 @@
    Model: Model/Times.v (getTimes and its inverses, exact arithmetic) on Base/Calendar.v.
    Instants are microseconds since 1970-01-01T00:00:00Z; a datetime is [y; mo; d; h; mi; s; us] (UTC);
    CF values are in 1/64 of the unit. *)
-From PNC Require Import Base.Util Base.Calendar Model.Times Proofs.TimesProofs.
+From Coq Require Import QArith.
+From PNC Require Import Base.Util Base.Calendar Base.DecDigits Model.Times Proofs.TimesProofs Gen.Times Proofs.TimesGenProofs.
 Local Open Scope Z_scope.
 
 (* ---- the calendar itself: civil date <-> day number are mutual inverses, for ALL years *)
@@ -137,6 +138,87 @@ Theorem C12_cf_fixed_returns : forall leap u r vals sp,
 Proof. exact cf_fixed_total. Qed.
 Print Assumptions C12_cf_fixed_returns.
 
+(* ---- extension round: more inverse mappings and bounds *)
+(* date2num(getTimes()) = stored values in the 365/366-day calendars too *)
+Theorem C12_date2num_fixed_roundtrip : forall leap u r vals out,
+  match u with UYears => False | _ => True end ->
+  impl_cf_fixed leap u r vals = Some out -> impl_date2num_fixed leap u r out = Some vals.
+Proof. exact date2num_fixed_roundtrip. Qed.
+Print Assumptions C12_date2num_fixed_roundtrip.
+
+(* time2idx(getTimes()) through date2num returns 0..n-1 for every ascending series *)
+Theorem C12_time2idx_of_getTimes : forall u r vals out,
+  impl_cf_std u r vals = Some out -> strictly_asc vals = true ->
+  exists nums, impl_date2num u r out = Some nums
+               /\ impl_time2idx vals nums = Some (iota 0 (length vals)).
+Proof. exact time2idx_of_getTimes. Qed.
+Print Assumptions C12_time2idx_of_getTimes.
+
+(* updatetflag then getTimes: the TFLAG rows written for any whole-second instants a datetime can hold
+   decode to exactly those instants (any number of rows) *)
+Theorem C12_updatetflag_then_decode : forall secs tstep,
+  forallb (fun s => in_range (s * us_sec)) secs = true ->
+  impl_tflag (map flag_of_sec secs) tstep false = decode_all (map (fun s => s * us_sec) secs).
+Proof. exact updatetflag_then_decode. Qed.
+Print Assumptions C12_updatetflag_then_decode.
+
+(* bounds=True without a time_bounds variable: for an evenly spaced series of any length >= 2 the edges are the
+   midpoints x_i - s/2 and the last value + s/2 *)
+Theorem C12_bounds_midpoints : forall x0 s m,
+  let n := S (S m) in
+  impl_bounds_vals BMid (map (fun i => x0 + i * s) (iota 0 n))
+  = Some (map (fun i => x0 + i * s - s / 2) (iota 0 n) ++ [x0 + (Z.of_nat n - 1) * s + s / 2]).
+Proof. exact bounds_mid_uniform. Qed.
+Print Assumptions C12_bounds_midpoints.
+
+(* ---- tie T: definitions regenerated from /repo's source on every run (coq/Gen/Times.v) *)
+(* the TFLAG branch of getTimes splits the integers as the specification does *)
+Theorem C12_gen_tflag_fields : forall d t,
+  (tf_yyyy d, tf_jjj d) = yj_of_yyyyjjj d
+  /\ tf_hours t = hhmmss_h t /\ tf_minutes t = hhmmss_m t /\ tf_seconds t = hhmmss_s t.
+Proof. exact gen_tflag_fields. Qed.
+Print Assumptions C12_gen_tflag_fields.
+
+(* its float expression jjj + (h + m/60. + s/3600.)/24. - 1, read exactly, is the whole number of seconds *)
+Theorem C12_gen_tflag_days_exact : forall j h m s,
+  ((tf_days j h m s + inject_Z (tf_dayoffset 0)) * inject_Z 86400 ==
+   inject_Z ((j - 1) * 86400 + h * 3600 + m * 60 + s))%Q.
+Proof. exact gen_tflag_days_exact. Qed.
+Print Assumptions C12_gen_tflag_days_exact.
+
+(* and the hand model's instant of a row is that expression on Jan 1 of the year *)
+Theorem C12_gen_tflag_instant : forall d t us,
+  d <> -635 -> impl_flag_us d t = Some us ->
+  (inject_Z us ==
+   (inject_Z (jan1 (tf_yyyy d) * 86400)
+    + (tf_days (tf_jjj d) (tf_hours t) (tf_minutes t) (tf_seconds t) + inject_Z (tf_dayoffset 0)) * inject_Z 86400)
+   * inject_Z us_sec)%Q.
+Proof. exact gen_tflag_instant. Qed.
+Print Assumptions C12_gen_tflag_instant.
+
+Theorem C12_gen_bounds_step : forall t, tb_seconds (tb_sh t) (tb_sm t) (tb_ss t) = sec_of_hhmmss t.
+Proof. exact gen_bounds_step. Qed.
+Print Assumptions C12_gen_bounds_step.
+
+Theorem C12_gen_usday : fx_usday = us_day.
+Proof. exact gen_usday. Qed.
+Print Assumptions C12_gen_usday.
+
+(* the digit slices getTimes takes of '%06d' % TSTEP give the model's step, for every digit string of
+   at least sd_pad characters (hours may have any number of digits) *)
+Theorem C12_gen_sdate_step : forall ds, forallb is_digit ds = true -> sd_pad <= Z.of_nat (length ds) ->
+  let '(h, m, s) := split3 sd_slices ds in
+  h * 3600 + m * 60 + s = impl_tstep_sec (int_of_digits ds).
+Proof. exact gen_sdate_step. Qed.
+Print Assumptions C12_gen_sdate_step.
+
+(* the same for add_time_variable's tmp[...] slices and its 3600/60/1 weights *)
+Theorem C12_gen_synth_step : forall ds, forallb is_digit ds = true -> tv_pad <= Z.of_nat (length ds) ->
+  let '(h, m, s) := split3 tv_slices ds in
+  tv_tmpseconds h m s = impl_tmpseconds (int_of_digits ds).
+Proof. exact gen_synth_step. Qed.
+Print Assumptions C12_gen_synth_step.
+
 (* ---- non-vacuity *)
 Example C12_cf_standard_inhabited :
   exists out, impl_cf_std UHours (Ref SpHMS_tz 2000 2 28 23 30 0 (-360)) [0; 96; 876000 * 64] = Some out
@@ -183,3 +265,13 @@ Example C12_date2num_hour_only_inhabited :
   impl_cf_std UHours (Ref SpH_tz 2000 3 1 19 0 0 60) [0; 96] = Some [[2000; 3; 1; 18; 0; 0; 0]; [2000; 3; 1; 19; 30; 0; 0]]
   /\ impl_date2num UHours (Ref SpH_tz 2000 3 1 19 0 0 60) [[2000; 3; 1; 18; 0; 0; 0]; [2000; 3; 1; 19; 30; 0; 0]] = Some [0; 96].
 Proof. vm_compute. split; reflexivity. Qed.
+
+Example C12_gen_digits_inhabited :
+  forallb is_digit [1; 0; 0; 0; 0; 0; 0] = true /\ split3 sd_slices [1; 0; 0; 0; 0; 0; 0] = (100, 0, 0)
+  /\ split3 tv_slices [0; 1; 3; 0; 0; 5] = (1, 30, 5) /\ impl_tstep_sec 13005 = 5405.
+Proof. vm_compute. repeat split; reflexivity. Qed.
+
+Example C12_bounds_midpoints_inhabited :
+  impl_bounds_vals BMid [64; 192; 320] = Some [0; 128; 256; 384].
+Proof. vm_compute. reflexivity. Qed.
+
